@@ -389,6 +389,7 @@ fn queue_main(plan: &Value, slot: Arc<Mutex<Option<QueueRun>>>) {
     stream.flush_fail_from = plan.get("flush_fail_from").and_then(|x| x.as_u64());
     stream.fail_all = plan.get("fail_all").and_then(|x| x.as_str()).map(Res::from_str);
     stream.fail_all_from = ju(plan, "fail_all_from", 0);
+    stream.fail_all_until = ju(plan, "fail_all_until", u64::MAX);
     stream.install_subscriber_at = plan.get("writer_subscriber_at").and_then(|x| x.as_u64());
     for s in ja(plan, "script") {
         if let Some(a) = s.as_array() {
@@ -411,7 +412,13 @@ fn queue_main(plan: &Value, slot: Arc<Mutex<Option<QueueRun>>>) {
         .thread_name("bgq")
         .metric_name("q")
         .flush_interval(Duration::from_nanos(flush_interval))
-        .shutdown_timeout(Duration::from_nanos(ju(plan, "shutdown_timeout_ns", 1_000_000_000_000_000).max(1)));
+        .shutdown_timeout(match ju(plan, "shutdown_timeout_huge", 0) {
+            // "wait as long as it takes", spelled the ways a caller would spell it
+            1 => Duration::MAX,
+            2 => Duration::from_secs(u64::MAX / 2),
+            3 => Duration::from_secs(1 << 62),
+            _ => Duration::from_nanos(ju(plan, "shutdown_timeout_ns", 1_000_000_000_000_000).max(1)),
+        });
     let global_tl = jb(plan, "recorder", false) && js(plan, "recorder_kind", "local") == "global_tl";
     if global_tl {
         // the "global recorder" bridge resolves the recorder at every call through the `metrics`
@@ -1079,7 +1086,7 @@ impl Scenario for QueueFifoSustained {
         1
     }
     fn generate(&self, rng: &mut Rng, tier: Tier) -> Value {
-        gen_c01_sustained(rng, tier)
+        outage_stratum(huge_timeout_stratum(gen_c01_sustained(rng, tier)))
     }
     fn run(&self, plan: &Value) -> Report {
         let (out, run) = run_queue_plan(plan);
@@ -1223,6 +1230,36 @@ const QUEUE_PROBES: [&str; 6] = [
     "flush_with_nonempty_queue",
 ];
 
+/// An outage of the output: in an eighth of the plans that script no blanket failure of their own, every entry from
+/// the k-th on is rejected (I/O error mostly, validation error otherwise) - for the rest of the run, or for a burst of
+/// 5 ... 300 entries after which the stream works again. Decided from the schedule seed (no other draw moves).
+fn outage_stratum(mut plan: Value) -> Value {
+    if plan.get("fail_all").map(|x| x.is_null()).unwrap_or(true) {
+        let h = mix(ju(plan.get("sched").unwrap_or(&Value::Null), "seed", 0), 0x07a6e);
+        if h % 8 == 0 {
+            let h = h / 8;
+            plan["fail_all"] = json!(if h % 3 == 0 { "V" } else { "I" });
+            let from = [0u64, 1, 3, 10][(h / 3 % 4) as usize];
+            plan["fail_all_from"] = json!(from);
+            let len = [u64::MAX, 5, 6, 9, 20, 80, 300][(h / 12 % 7) as usize];
+            plan["fail_all_until"] = json!(from.saturating_add(len));
+        }
+    }
+    plan
+}
+
+/// A tenth of the plans whose shutdown timeout means "never give up" (10^6 s) say so with `Duration::MAX` or
+/// another huge value instead. Decided from the schedule seed, so that no other draw of the plan moves.
+fn huge_timeout_stratum(mut plan: Value) -> Value {
+    if ju(&plan, "shutdown_timeout_ns", 0) == 1_000_000_000_000_000 {
+        let h = mix(ju(plan.get("sched").unwrap_or(&Value::Null), "seed", 0), 0x7107);
+        if h % 10 == 0 {
+            plan["shutdown_timeout_huge"] = json!(1 + (h / 10) % 3);
+        }
+    }
+    plan
+}
+
 fn queue_components() -> Value {
     json!({
         "real": ["BackgroundQueueBuilder/BackgroundQueue/BackgroundQueueJoinHandle", "Receiver::run/drain_until_deadline/consume/report_validation_error/shut_down", "WakerTracker", "BoxEntrySink/BoxEntry", "FlushWait", "rate_limited!", "crossbeam ArrayQueue (atomic step)", "std mpsc flush channel (atomic step)", "tokio oneshot (atomic step)"],
@@ -1243,7 +1280,7 @@ impl Scenario for QueueFifo {
         4
     }
     fn generate(&self, rng: &mut Rng, tier: Tier) -> Value {
-        gen_c01(rng, tier)
+        outage_stratum(huge_timeout_stratum(gen_c01(rng, tier)))
     }
     fn run(&self, plan: &Value) -> Report {
         let (out, run) = run_queue_plan(plan);
@@ -1479,7 +1516,7 @@ impl Scenario for QueueOverflow {
         "C09"
     }
     fn generate(&self, rng: &mut Rng, tier: Tier) -> Value {
-        gen_c09(rng, tier)
+        outage_stratum(huge_timeout_stratum(gen_c09(rng, tier)))
     }
     fn run(&self, plan: &Value) -> Report {
         let (out, run) = run_queue_plan(plan);
@@ -1869,7 +1906,7 @@ impl Scenario for QueueFlushBarrier {
         3
     }
     fn generate(&self, rng: &mut Rng, tier: Tier) -> Value {
-        gen_c04_safety(rng, tier)
+        huge_timeout_stratum(gen_c04_safety(rng, tier))
     }
     fn run(&self, plan: &Value) -> Report {
         let (out, run) = run_queue_plan(plan);
@@ -1899,7 +1936,7 @@ impl Scenario for QueueFlushLiveness {
         1
     }
     fn generate(&self, rng: &mut Rng, tier: Tier) -> Value {
-        gen_c04_liveness(rng, tier)
+        huge_timeout_stratum(gen_c04_liveness(rng, tier))
     }
     fn run(&self, plan: &Value) -> Report {
         let (out, run) = run_queue_plan(plan);
@@ -2245,7 +2282,7 @@ impl Scenario for QueueShutdown {
         4
     }
     fn generate(&self, rng: &mut Rng, tier: Tier) -> Value {
-        gen_c05(rng, tier)
+        outage_stratum(huge_timeout_stratum(gen_c05(rng, tier)))
     }
     fn run(&self, plan: &Value) -> Report {
         let (out, run) = run_queue_plan(plan);
